@@ -83,7 +83,7 @@ def run_c08(tier, seed):
                       "heap census: one-off growth (hash-table buckets, vector capacity, pools) is legitimate and not judged; only growth proportional to the number of connections served, confirmed over a second window, is",
                       "accept4/close are interposed at link time to own the set of accepted descriptors; the HTTP endpoint path observes onRequest/onDisconnection only (Http::Handler::onConnection is private)"]
     return _finish(v, work, counters, distinct, samples, stats,
-                   "rounds of 1-24 concurrent scripted clients against a raw Tcp::Listener (own Tcp::Handler, spy transport exposing the peer table) or an Http::Endpoint (1 s idle time-outs): connect/close, partial request then close, full exchange, half-close then read to EOF, RST, RST with a 4 MiB response pending, silence until the idle time-out (before/after an exchange), handlers that arm timeoutAfter and answer first, keep-alive sequences, slow requests that keep the worker busy while bytes and FIN (or a half-close) arrive together, a streamed response (6 x 20000-byte flushed chunks) reset by the client in mid-stream, long-poll handlers that park the ResponseWriter with a 250 ms response time-out while the client leaves before it expires. Per-peer callback automaton, accept4/close ownership, descriptor census, peer table, service afterwards; the same rounds a second time under ASan+UBSan+LeakSanitizer (double release, use after release, unreachable per-connection state); heap census: on 4 server variants (raw listener, endpoint with long / 1 s time-outs, endpoint with a small request limit) the bytes held through operator new (exact, replaced operator new/delete) are read at quiescence after each of 4(+4) identical intervals of N scripted connections (12 behaviours incl. resets with a pending 1 MiB response, refused requests, streamed responses, armed response timers, idle time-outs) - growth of >= 4 bytes per connection that continues over two windows is a violation. distinct = (server kind, workers, behaviour set)")
+                   "rounds of 1-24 concurrent scripted clients against a raw Tcp::Listener (own Tcp::Handler, spy transport exposing the peer table) or an Http::Endpoint (1 s idle time-outs): connect/close, partial request then close, full exchange, half-close then read to EOF, RST, RST with a 4 MiB response pending, silence until the idle time-out (before/after an exchange), handlers that arm timeoutAfter and answer first, keep-alive sequences, slow requests that keep the worker busy while bytes and FIN (or a half-close) arrive together, a streamed response (6 x 20000-byte flushed chunks) reset by the client in mid-stream, long-poll handlers that park the ResponseWriter with a 250 ms response time-out while the client leaves before it expires, or stays until the timer has fired and the framework's onTimeout has answered 408. Per-peer callback automaton, accept4/close ownership, descriptor census, peer table, service afterwards; the same rounds a second time under ASan+UBSan+LeakSanitizer (double release, use after release, unreachable per-connection state); heap census: on 4 server variants (raw listener, endpoint with long / 1 s time-outs, endpoint with a small request limit) the bytes held through operator new (exact, replaced operator new/delete) are read at quiescence after each of 4(+4) identical intervals of N scripted connections (12 behaviours incl. resets with a pending 1 MiB response, refused requests, streamed responses, armed response timers, idle time-outs) - growth of >= 4 bytes per connection that continues over two windows is a violation. distinct = (server kind, workers, behaviour set)")
 
 def run_c14(tier, seed):
     v = vlib.Verdict("C14", tier, seed, level="fault_enumeration")
